@@ -244,7 +244,12 @@ func (c *ServerChannel) EstablishSession(
 			negEncryptOpts = append(negEncryptOpts, v.(SessionEncryption))
 		}
 
-		if len(negCompOpts) > 1 || len(negEncryptOpts) > 1 {
+		// A single remaining option still has to be negotiated when the transport is not already using it,
+		// otherwise a server that only accepts TLS would authenticate the client over a cleartext connection.
+		mustSwitchComp := len(negCompOpts) == 1 && negCompOpts[0] != c.transport.Compression()
+		mustSwitchEncrypt := len(negEncryptOpts) == 1 && negEncryptOpts[0] != c.transport.Encryption()
+
+		if len(negCompOpts) > 1 || len(negEncryptOpts) > 1 || mustSwitchComp || mustSwitchEncrypt {
 			// Negotiate the session options
 			if err = c.negotiateSession(ctx, negCompOpts, negEncryptOpts); err != nil {
 				return err
